@@ -74,6 +74,21 @@ func markerPass() filter.Filter { return filter.NSName(nsname.New(markerNS, ""))
 
 // wrapFilter lets the marker namespace pass every generated filter.
 func wrapFilter(tm *term) filter.Filter {
+	switch tm.Kind {
+	case tNSName:
+		// stays a bare NSName filter (code paths keyed on the filter's own type are reached): the marker
+		// namespace becomes one more namespace-only id
+		c := cloneTerm(tm)
+		c.IDs = append(c.IDs, nsname.New(markerNS, ""))
+		return c.build()
+	case tOr:
+		// stays one flat Or: the marker filter is one more child
+		fs := make([]filter.Filter, 0, len(tm.Children)+1)
+		for _, ch := range tm.Children {
+			fs = append(fs, ch.build())
+		}
+		return filter.Or(append(fs, markerPass())...)
+	}
 	return filter.Or(tm.build(), markerPass())
 }
 
